@@ -20,6 +20,36 @@ CLAIMS['C27'] = ('proof',
     'unchanged; otherwise exactly the declared frame is consumed and the result is the specification decoding of that frame (or Err for an undecodable frame); plus the round-trip lemma '
     'decode(encode(m) ++ rest) = (m, rest) over the contract. The tokio read loop in connection.rs is not under contract.',
     _B_NOTE, 'contract-based deductive verification: Verus on mechanically extracted functions over an assumed-contract BytesMut', 'DESIGN.md 5/C27')
+CLAIMS['C02'] = ('proof',
+    'Kernel contracts only: the functions that decide WHICH index keys a predicate selects are proved on the real code - key normalisation preserves numeric order, '
+    'the successor functions used to turn > v / <= v into inclusive/exclusive composite-key bounds return the exact IEEE/integer successor (full f32/f64/i64 domains, Kani), '
+    'and the recursive predicate-to-range extraction is sound for every AST nesting (Verus, when the I-range unit is registered). BTreeMap::range, index selection and maintenance are not under contract.',
+    _B_NOTE, 'contract-based deductive verification: Kani/CBMC on scalar index-key kernels (+ Verus on the range extraction)', 'DESIGN.md 5/C02')
+CLAIMS['C18'] = ('proof',
+    'Narrow: for every scalar SqlValue tag the real write_sql_value/read_sql_value pair is proved a bitwise round trip with exact byte consumption (NaN payloads, -0.0, extreme integers), '
+    'TypeTag::from_u8 is the inverse of the tag byte on all 256 codes, and the 16-byte header round-trips. Strings, temporals, catalog, index definitions, JSON and compression are not under contract.',
+    _B_NOTE, 'contract-based deductive verification: Kani/CBMC harnesses over full scalar domains on the real codec functions', 'DESIGN.md 5/C18')
+CLAIMS['C20'] = ('proof',
+    'Narrow: the fixed-width readers of the binary format (read_sql_value per scalar tag, read_header, TypeTag::from_u8) are proved total on arbitrary and truncated bytes: Ok or Err, '
+    'no panic, no out-of-bounds, never reading past the input, truncated input is an error (every tag x every length, symbolic payload bytes). String/catalog/row readers, JSON and SQL dumps are not under contract.',
+    _B_NOTE, 'contract-based deductive verification: Kani/CBMC harnesses (tag/length case split outside the solver)', 'DESIGN.md 5/C20')
+CLAIMS['C17'] = ('proof',
+    'Kernel contracts only: the varint codec of the page format round-trips for all usize with exact consumption and its reader is total (Kani); node-level operations (sorted insert/search/delete/split '
+    'against a multimap view) are proved by Verus where registered. Whole-tree behaviour over operation sequences, rebalancing and page I/O are not under contract.',
+    _B_NOTE, 'contract-based deductive verification: Kani/CBMC on the varint codec (+ Verus on node operations)', 'DESIGN.md 5/C17')
+CLAIMS['C24'] = ('proof',
+    'The arithmetic clause is proved on the real operator code through OperatorRegistry::eval_binary_op: +, -, * on exact numerics return the mathematically exact integer or an explicit error, never a wrapped value, '
+    'and no path panics (Kani checks overflow/unwrap/unreachable on every path; full i64 domains, products value-checked on 32-bit operands); % and / by zero yield NULL (DIV: error), i64::MIN % -1 does not panic. '
+    '"Any parsed statement leaves the database usable" is a whole-executor statement and is not decided.',
+    _B_NOTE, 'contract-based deductive verification: Kani/CBMC harnesses over full integer domains on the real operator functions', 'DESIGN.md 5/C24')
+CLAIMS['C06'] = ('proof',
+    'Kernel contracts only: the truth-value algebra the partition law rests on is proved on the real code - AND/OR are the Kleene tables and reject non-Boolean operands, every non-logical operator maps a NULL operand to NULL, '
+    'comparisons return only Boolean/NULL and are the mathematical relation (trichotomy, <> = NOT =, <= = < OR =). That the scan/filter/pushdown code applies these kernels to every row is not under contract.',
+    _B_NOTE, 'contract-based deductive verification: Kani/CBMC harnesses on the real operator functions', 'DESIGN.md 5/C06')
+CLAIMS['C01'] = ('proof',
+    'Kernel contracts only: the scalar semantics every query of the subset is built from (three-valued AND/OR, NULL propagation, exact integer +,-,*, comparisons) and LIMIT/OFFSET slicing are proved on the real code '
+    'against the SQL definitions written as independent spec predicates. Planner, joins, grouping, set operations and subqueries are not under contract.',
+    _B_NOTE, 'contract-based deductive verification: Kani/CBMC on operator kernels + Verus on apply_limit_offset', 'DESIGN.md 5/C01')
 NOT_APPLICABLE = {
     'C04': 'concurrency/rayon scheduling: Kani has no threads, Verus needs permission-typed code; the determinism-relevant comparator laws are claimed under C21/C08',
     'C05': 'every anchor is an AST-to-plan transformation or a join operator over Database/evaluator state: AST walks do not finish in CBMC and the code is outside the Verus subset',
